@@ -55,8 +55,12 @@ def install():
     z3.Solver.check = check
 
 
-def trace_repo_functions(prefix="/repo/src/"):
+def trace_repo_functions(prefix=None):
     """Record qualified names of repo functions that start executing (any thread of this process)."""
+    if prefix is None:
+        from vlib.common import REPO_SRC
+
+        prefix = REPO_SRC + "/"
     mon = getattr(sys, "monitoring", None)
     if mon is None:
         return
